@@ -296,6 +296,8 @@ Fixpoint popen (fuel : nat) (h : phandle) (base : pbase) (subpath : bytes) (ofla
                  match nh with
                  | Err _ => Ret (Err e)
                  | Ok h' =>
+                     (* T0: the retry only runs on a handle that is not itself masked *)
+                     if RETRY_ONLY_UNMASKED && ph_subset h' then close (ph_fd h') ;;; Ret (Err e) else
                      r' <- popen f h' base subpath oflags ;;
                      close (ph_fd h') ;;; Ret r'
                  end
